@@ -1,7 +1,8 @@
 import RichModel.Lemmas.Console
 /-!
-Arbitrarily nested capture blocks: the console model refines a *specification machine* whose state is a stack
-of frames, one per open capture block, each holding exactly the segments appended directly inside that block.
+Arbitrarily nested capture blocks and `with console:` blocks: the console model refines a *specification machine*
+whose state is a stack of frames, one per open capture block, each holding exactly the segments appended directly
+inside that block, plus the number of open `with console:` levels and the segments they hold back.
 -/
 namespace RichModel.Console
 open RichModel
@@ -14,10 +15,17 @@ def isExport : Op σ → Bool
   | .exportHtml _ _ _ => true
   | _ => false
 
-/-- Specification state: the open capture blocks (innermost first), each with the segments appended directly
-inside it and not yet returned; the record; the file. -/
+/-- Specification state.
+* `frames`: the open capture blocks (innermost first), each with the segments appended directly inside it and not
+  yet returned;
+* `ctx`: how many `with console:` blocks are open;
+* `base`: segments appended outside every capture block while a `with console:` block is open — held back until
+  the depth returns to zero;
+* the record and the file. -/
 structure Spec (σ : Type) where
   frames : List (List (Segment σ)) := []
+  ctx : Nat := 0
+  base : List (Segment σ) := []
   record : List (Segment σ) := []
   file : List (List (Piece σ)) := []
 
@@ -29,19 +37,30 @@ def exportStep (v : Variant) (cfg : Config) (env : StyleEnv σ) (record : List (
   let r := step v cfg env { record := record } op
   (r.1.record, r.2)
 
+/-- When no block of either kind is open, what was held back is written to the file and recorded. -/
+def Spec.settle (cfg : Config) (env : StyleEnv σ) (sp : Spec σ) : Spec σ :=
+  if sp.frames.isEmpty && sp.ctx == 0 then
+    { sp with base := [], record := if cfg.record then sp.record ++ sp.base else sp.record,
+              file := sp.file ++ written cfg env [sp.base] }
+  else sp
+
 /-- The specification of one operation:
-* `begin_capture` opens an empty frame;
-* `end_capture` closes the innermost frame and returns the rendering of *that frame only*;
+* `begin_capture` opens an empty frame; `end_capture` closes the innermost frame and returns the rendering of
+  *that frame only*;
+* entering `with console:` raises `ctx`, leaving it lowers `ctx`;
 * an export acts on the record;
-* any other operation appends what it renders to the innermost frame if there is one — and then nothing
-  reaches the file or the record — and otherwise writes it to the file and records it. -/
+* any other operation appends what it renders to the innermost frame if there is one — and then nothing reaches
+  the file or the record — and otherwise to `base`;
+* after every step that may bring the depth to zero, `settle`. -/
 def specStep (v : Variant) (cfg : Config) (env : StyleEnv σ) (sp : Spec σ) (op : Op σ) : Spec σ × Out :=
   match op with
   | .beginCapture => ({ sp with frames := [] :: sp.frames }, .none)
   | .endCapture =>
     match sp.frames with
-    | f :: rest => ({ sp with frames := rest }, .captured (flat (renderPieces cfg env f)))
+    | f :: rest => (Spec.settle cfg env { sp with frames := rest }, .captured (flat (renderPieces cfg env f)))
     | [] => (sp, .captured [])   -- no block is open: outside the specification (see `capture_nesting`, part B)
+  | .enterBuffer => ({ sp with ctx := sp.ctx + 1 }, .none)
+  | .exitBuffer => (Spec.settle cfg env { sp with ctx := sp.ctx - 1 }, .none)
   | op =>
     if isExport op then
       let r := exportStep v cfg env sp.record op
@@ -49,8 +68,7 @@ def specStep (v : Variant) (cfg : Config) (env : StyleEnv σ) (sp : Spec σ) (op
     else
       match sp.frames with
       | f :: rest => ({ sp with frames := (f ++ appended cfg op) :: rest }, .none)
-      | [] => ({ sp with record := if cfg.record then sp.record ++ appended cfg op else sp.record,
-                         file := sp.file ++ written cfg env [appended cfg op] }, .none)
+      | [] => (Spec.settle cfg env { sp with base := sp.base ++ appended cfg op }, .none)
 
 def specRun (v : Variant) (cfg : Config) (env : StyleEnv σ) : List (Op σ) → Spec σ → Spec σ × List Out
   | [], sp => (sp, [])
@@ -59,22 +77,34 @@ def specRun (v : Variant) (cfg : Config) (env : StyleEnv σ) : List (Op σ) → 
     let r2 := specRun v cfg env rest r.1
     (r2.1, r.2 :: r2.2)
 
-/-- The `capture_starts` stack that corresponds to a stack of frames (innermost first): each block starts
-where the frames below it end. -/
-def marksOf : List (List (Segment σ)) → List Nat
+/-- The `capture_starts` stack that corresponds to a stack of frames (innermost first) lying after `b` held-back
+segments: each block starts where the frames below it end. -/
+def marksOf (b : Nat) : List (List (Segment σ)) → List Nat
   | [] => []
-  | _ :: rest => (rest.reverse.flatten).length :: marksOf rest
+  | _ :: rest => (b + (rest.reverse.flatten).length) :: marksOf b rest
 
-/-- The model state `s` represents the specification state `sp`: the depth is the number of open blocks, the
-thread buffer is the frames laid end to end (outermost first), the marks are the frame boundaries. -/
+/-- The model state `s` represents the specification state `sp`: the depth is the number of open blocks of both
+kinds, the thread buffer is the held-back segments followed by the frames laid end to end (outermost first), the
+marks are the frame boundaries; and nothing is held back when no block is open. -/
 structure Rel (s : State σ) (sp : Spec σ) : Prop where
-  index : s.index = (sp.frames.length : Int)
-  buffer : s.buffer = sp.frames.reverse.flatten
-  marks : s.marks = marksOf sp.frames
+  index : s.index = ((sp.frames.length + sp.ctx : Nat) : Int)
+  buffer : s.buffer = sp.base ++ sp.frames.reverse.flatten
+  marks : s.marks = marksOf sp.base.length sp.frames
   record : s.record = sp.record
   file : s.file = sp.file
+  idle : sp.frames = [] → sp.ctx = 0 → sp.base = []
 
-theorem Rel.init : Rel ({} : State σ) ({} : Spec σ) := ⟨rfl, rfl, rfl, rfl, rfl⟩
+theorem Rel.init : Rel ({} : State σ) ({} : Spec σ) := ⟨rfl, rfl, rfl, rfl, rfl, fun _ _ => rfl⟩
+
+/-- Brackets of both kinds are never closed more often than opened (`nf` open capture blocks, `nc` open
+`with console:` blocks). -/
+def wellBracketed : Nat → Nat → List (Op σ) → Bool
+  | _, _, [] => true
+  | nf, nc, .beginCapture :: rest => wellBracketed (nf + 1) nc rest
+  | nf, nc, .endCapture :: rest => nf != 0 && wellBracketed (nf - 1) nc rest
+  | nf, nc, .enterBuffer :: rest => wellBracketed nf (nc + 1) rest
+  | nf, nc, .exitBuffer :: rest => nc != 0 && wellBracketed nf (nc - 1) rest
+  | nf, nc, _ :: rest => wellBracketed nf nc rest
 
 /-! ### operations that are neither begin/end nor exports -/
 
@@ -162,51 +192,95 @@ theorem step_export (v : Variant) (cfg : Config) (env : StyleEnv σ) (s : State 
 
 /-! ### the refinement step -/
 
-theorem marksOf_cons (f : List (Segment σ)) (rest : List (List (Segment σ))) :
-    marksOf (f :: rest) = (rest.reverse.flatten).length :: marksOf rest := rfl
+theorem marksOf_cons (b : Nat) (f : List (Segment σ)) (rest : List (List (Segment σ))) :
+    marksOf b (f :: rest) = (b + (rest.reverse.flatten).length) :: marksOf b rest := rfl
 
 theorem frames_flatten_cons (f : List (Segment σ)) (rest : List (List (Segment σ))) :
     (f :: rest).reverse.flatten = rest.reverse.flatten ++ f := by simp
 
-/-- One operation: the model does what the specification says, provided `end_capture` finds an open block. -/
+/-- The state after `_check_buffer` represents the settled specification state. -/
+theorem checkBuffer_settle (v : Variant) (cfg : Config) (env : StyleEnv σ) (s : State σ) (sp : Spec σ)
+    (hv : v.recordInRender = false)
+    (hi : s.index = ((sp.frames.length + sp.ctx : Nat) : Int)) (hb : s.buffer = sp.base ++ sp.frames.reverse.flatten)
+    (hm : s.marks = marksOf sp.base.length sp.frames) (hr : s.record = sp.record) (hf : s.file = sp.file) :
+    Rel (checkBuffer v cfg env s) (Spec.settle cfg env sp) := by
+  unfold Spec.settle
+  by_cases h0 : (sp.frames.isEmpty && sp.ctx == 0) = true
+  · simp only [h0, if_true]
+    simp only [Bool.and_eq_true, List.isEmpty_iff, beq_iff_eq] at h0
+    obtain ⟨hfr, hc⟩ := h0
+    have hi0 : s.index = 0 := by rw [hi, hfr, hc]; rfl
+    have hb0 : s.buffer = sp.base := by rw [hb, hfr]; simp
+    refine ⟨?_, ?_, ?_, ?_, ?_, fun _ _ => rfl⟩
+    · rw [checkBuffer_index, hi0, hfr, hc]; rfl
+    · simp only [hfr, List.reverse_nil, List.flatten_nil, List.append_nil]
+      exact (checkBuffer_outside v cfg env s hi0).1
+    · rw [checkBuffer_marks, hm, hfr]; rfl
+    · rw [checkBuffer_outside_record v cfg env s hv hi0, hr, hb0]
+    · rw [(checkBuffer_outside v cfg env s hi0).2.2, hf, hb0]
+  · have h0' : (sp.frames.isEmpty && sp.ctx == 0) = false := by simpa using h0
+    simp only [h0', Bool.false_eq_true, if_false]
+    have hne : s.index ≠ 0 := by
+      rw [hi]; intro hz
+      have hz' : sp.frames.length + sp.ctx = 0 := by exact_mod_cast hz
+      have h1 : sp.frames = [] := List.length_eq_zero_iff.mp (by omega)
+      have h2 : sp.ctx = 0 := by omega
+      simp [h1, h2] at h0'
+    rw [checkBuffer_inside _ _ _ _ hne]
+    refine ⟨hi, hb, hm, hr, hf, ?_⟩
+    intro h1 h2
+    simp [h1, h2] at h0'
+
+/-- One operation: the model does what the specification says, provided `end_capture` finds an open capture block
+and leaving `with console:` finds an open one. -/
 theorem step_refines (v : Variant) (cfg : Config) (env : StyleEnv σ) (s : State σ) (sp : Spec σ) (op : Op σ)
     (hm : v.captureMarks = true) (hv : v.recordInRender = false) (h : Rel s sp)
-    (hend : op = .endCapture → sp.frames ≠ []) (hctx : isBufferCtx op = false) :
+    (hend : op = .endCapture → sp.frames ≠ []) (hexit : op = .exitBuffer → sp.ctx ≠ 0) :
     (step v cfg env s op).2 = (specStep v cfg env sp op).2 ∧ Rel (step v cfg env s op).1 (specStep v cfg env sp op).1 := by
   by_cases hc : isCapture op = true
   · cases op <;> simp [isCapture] at hc
     · -- begin_capture
       refine ⟨rfl, ?_⟩
       simp only [step, specStep, hm, if_true]
-      exact ⟨by simp [h.index], by simp [h.buffer], by simp [marksOf_cons, h.marks, h.buffer], h.record, h.file⟩
+      refine ⟨?_, by simp [h.buffer], ?_, h.record, h.file, fun hf => by simp at hf⟩
+      · simp only [h.index, List.length_cons]; push_cast; omega
+      · simp [marksOf_cons, h.marks, h.buffer]
     · -- end_capture
       cases hf : sp.frames with
       | nil => exact absurd hf (hend rfl)
       | cons f rest =>
-        have hbuf : s.buffer = rest.reverse.flatten ++ f := by rw [h.buffer, hf, frames_flatten_cons]
-        have hmk : s.marks = (rest.reverse.flatten).length :: marksOf rest := by rw [h.marks, hf, marksOf_cons]
-        have hidx : s.index - 1 = (rest.length : Int) := by rw [h.index, hf]; simp
+        have hbuf : s.buffer = (sp.base ++ rest.reverse.flatten) ++ f := by
+          rw [h.buffer, hf, frames_flatten_cons, List.append_assoc]
+        have hlen : sp.base.length + (rest.reverse.flatten).length = (sp.base ++ rest.reverse.flatten).length := by simp
+        have hmk : s.marks = (sp.base ++ rest.reverse.flatten).length :: marksOf sp.base.length rest := by
+          rw [h.marks, hf, marksOf_cons, hlen]
         simp only [step, specStep, hf, hm, if_true, hmk, List.headD_cons, List.tail_cons, hbuf, List.drop_left,
           List.take_left, renderBuffer, hv, Bool.false_and, Bool.false_eq_true, if_false]
         refine ⟨trivial, ?_⟩
-        by_cases hr : rest = []
-        · subst hr
-          have h0 : s.index - 1 = 0 := by rw [hidx]; rfl
-          constructor
-          · rw [checkBuffer_index]; simpa using h0
-          · simp only [List.reverse_nil, List.flatten_nil]
-            exact (checkBuffer_outside v cfg env _ h0).1
-          · rw [checkBuffer_marks]
-          · rw [checkBuffer_outside_record v cfg env _ hv h0]; simp [h.record]
-          · rw [(checkBuffer_outside v cfg env _ h0).2.2]; simp [written_cons, h.file]
-        · have hne : s.index - 1 ≠ 0 := by
-            rw [hidx]; intro h0
-            have : rest.length = 0 := by exact_mod_cast h0
-            exact hr (List.length_eq_zero_iff.mp this)
-          rw [checkBuffer_inside _ _ _ _ (by simp only; exact hne)]
-          exact ⟨hidx, rfl, rfl, h.record, h.file⟩
-    · simp [isBufferCtx] at hctx
-    · simp [isBufferCtx] at hctx
+        apply checkBuffer_settle v cfg env _ { sp with frames := rest } hv
+        · simp only [h.index, hf, List.length_cons]; push_cast; omega
+        · rfl
+        · rfl
+        · exact h.record
+        · exact h.file
+    · -- enter `with console:`
+      refine ⟨rfl, ?_⟩
+      simp only [step, specStep]
+      refine ⟨?_, h.buffer, h.marks, h.record, h.file, fun _ hc0 => by simp at hc0⟩
+      simp only [h.index]; push_cast; omega
+    · -- leave `with console:`
+      refine ⟨rfl, ?_⟩
+      simp only [step, specStep]
+      have hc0 : sp.ctx ≠ 0 := hexit rfl
+      apply checkBuffer_settle v cfg env _ { sp with ctx := sp.ctx - 1 } hv
+      · simp only [h.index]
+        have : sp.frames.length + sp.ctx - 1 = sp.frames.length + (sp.ctx - 1) := by omega
+        have h1 : 1 ≤ sp.frames.length + sp.ctx := by omega
+        rw [← this]; push_cast [h1]; omega
+      · exact h.buffer
+      · exact h.marks
+      · exact h.record
+      · exact h.file
   · have hc' : isCapture op = false := by simpa using hc
     have hspec : specStep v cfg env sp op =
         (if isExport op then
@@ -214,36 +288,53 @@ theorem step_refines (v : Variant) (cfg : Config) (env : StyleEnv σ) (s : State
         else
           match sp.frames with
           | f :: rest => ({ sp with frames := (f ++ appended cfg op) :: rest }, .none)
-          | [] => ({ sp with record := if cfg.record then sp.record ++ appended cfg op else sp.record,
-                             file := sp.file ++ written cfg env [appended cfg op] }, .none)) := by
+          | [] => (Spec.settle cfg env { sp with base := sp.base ++ appended cfg op }, .none)) := by
       cases op <;> simp_all [isCapture, specStep]
     rw [hspec]
     by_cases he : isExport op = true
     · obtain ⟨h1, h2⟩ := step_export v cfg env s op he
       simp only [he, if_true]
       rw [h1, h2, h.record]
-      exact ⟨rfl, ⟨h.index, h.buffer, h.marks, rfl, h.file⟩⟩
+      exact ⟨rfl, ⟨h.index, h.buffer, h.marks, rfl, h.file, h.idle⟩⟩
     · have he' : isExport op = false := by simpa using he
       simp only [he', Bool.false_eq_true, if_false]
       refine ⟨?_, ?_⟩
       · rw [step_plain_out v cfg env s op hc' he']; cases sp.frames <;> rfl
       · cases hf : sp.frames with
         | nil =>
-          have hi : s.index = 0 := by rw [h.index, hf]; rfl
-          have hb : s.buffer = [] := by rw [h.buffer, hf]; rfl
-          obtain ⟨b1, i1, f1⟩ := step_outside v cfg env s op hi hb hc'
-          exact ⟨by simpa using i1, by simpa using b1, by rw [step_marks v cfg env s op hc', h.marks, hf],
-            by rw [step_outside_record v cfg env s op hv hi hb hc' he', h.record], by rw [f1, h.file]⟩
+          by_cases hctx : sp.ctx = 0
+          · -- outside everything: written at once
+            have hbase : sp.base = [] := h.idle hf hctx
+            have hi : s.index = 0 := by rw [h.index, hf, hctx]; rfl
+            have hb : s.buffer = [] := by rw [h.buffer, hf, hbase]; rfl
+            obtain ⟨b1, i1, f1⟩ := step_outside v cfg env s op hi hb hc'
+            simp only [Spec.settle, hf, hctx, List.isEmpty_nil, beq_self_eq_true, Bool.and_self, if_true, hbase,
+              List.nil_append]
+            exact ⟨by rw [i1]; rfl, by simpa using b1, by rw [step_marks v cfg env s op hc', h.marks, hf]; rfl,
+              by rw [step_outside_record v cfg env s op hv hi hb hc' he', h.record], by rw [f1, h.file],
+              fun _ _ => rfl⟩
+          · -- inside `with console:` only: held back
+            have hi : s.index ≠ 0 := by rw [h.index, hf]; simp; omega
+            obtain ⟨b1, i1, f1⟩ := step_inside v cfg env s op hi hc'
+            have hcz : (sp.ctx == 0) = false := by simpa using hctx
+            simp only [Spec.settle, hcz, Bool.and_false, Bool.false_eq_true, if_false]
+            refine ⟨by rw [i1, h.index, hf], ?_, ?_, ?_, by rw [f1, h.file], fun _ hc0 => absurd hc0 hctx⟩
+            · rw [b1, h.buffer, hf]; simp
+            · rw [step_marks v cfg env s op hc', h.marks, hf]; rfl
+            · rw [step_inside_record' v cfg env s op hi hc' he', h.record]
         | cons f rest =>
           have hi : s.index ≠ 0 := by rw [h.index, hf]; simp; omega
           obtain ⟨b1, i1, f1⟩ := step_inside v cfg env s op hi hc'
-          refine ⟨by rw [i1, h.index, hf]; simp, ?_, ?_, ?_, by rw [f1, h.file]⟩
+          refine ⟨by rw [i1, h.index, hf]; simp, ?_, ?_, ?_, by rw [f1, h.file], fun hnil => by simp at hnil⟩
           · rw [b1, h.buffer, hf]; simp
           · rw [step_marks v cfg env s op hc', h.marks, hf]; rfl
           · rw [step_inside_record' v cfg env s op hi hc' he', h.record]
 
-theorem specStep_frames_length (v : Variant) (cfg : Config) (env : StyleEnv σ) (sp : Spec σ) (op : Op σ)
-    (hc : isCapture op = false) : (specStep v cfg env sp op).1.frames.length = sp.frames.length := by
+theorem specStep_counts (v : Variant) (cfg : Config) (env : StyleEnv σ) (sp : Spec σ) (op : Op σ)
+    (hc : isCapture op = false) :
+    (specStep v cfg env sp op).1.frames.length = sp.frames.length ∧ (specStep v cfg env sp op).1.ctx = sp.ctx := by
+  have hset : ∀ x : Spec σ, (Spec.settle cfg env x).frames = x.frames ∧ (Spec.settle cfg env x).ctx = x.ctx := by
+    intro x; unfold Spec.settle; split <;> exact ⟨rfl, rfl⟩
   cases op with
   | beginCapture => simp [isCapture] at hc
   | endCapture => simp [isCapture] at hc
@@ -251,18 +342,19 @@ theorem specStep_frames_length (v : Variant) (cfg : Config) (env : StyleEnv σ) 
   | exitBuffer => simp [isCapture] at hc
   | exportText a b => simp [specStep, isExport]
   | exportHtml a b o => simp [specStep, isExport]
-  | print segs => simp only [specStep, isExport]; cases sp.frames <;> simp
-  | line c => simp only [specStep, isExport]; cases sp.frames <;> simp
-  | control c => simp only [specStep, isExport]; cases sp.frames <;> simp
-  | bell => simp only [specStep, isExport]; cases sp.frames <;> simp
-  | clear b => simp only [specStep, isExport]; cases sp.frames <;> simp
-  | showCursor b => simp only [specStep, isExport]; cases sp.frames <;> simp
+  | print segs => simp only [specStep, isExport]; cases sp.frames <;> simp [hset]
+  | line c => simp only [specStep, isExport]; cases sp.frames <;> simp [hset]
+  | control c => simp only [specStep, isExport]; cases sp.frames <;> simp [hset]
+  | bell => simp only [specStep, isExport]; cases sp.frames <;> simp [hset]
+  | clear b => simp only [specStep, isExport]; cases sp.frames <;> simp [hset]
+  | showCursor b => simp only [specStep, isExport]; cases sp.frames <;> simp [hset]
 
-/-- Every well-nested history (capture blocks never closed more often than opened; possibly left open; nested
-to any depth) — the model's outputs are the specification's and the final states correspond. -/
+/-- Every well-bracketed history (capture blocks and `with console:` blocks never closed more often than opened;
+possibly left open; nested and interleaved in any way) — the model's outputs are the specification's and the final
+states correspond. -/
 theorem run_refines (v : Variant) (cfg : Config) (env : StyleEnv σ) (hm : v.captureMarks = true)
     (hv : v.recordInRender = false) :
-    ∀ (ops : List (Op σ)) (s : State σ) (sp : Spec σ), Rel s sp → wellNested sp.frames.length ops = true →
+    ∀ (ops : List (Op σ)) (s : State σ) (sp : Spec σ), Rel s sp → wellBracketed sp.frames.length sp.ctx ops = true →
       (run v cfg env ops s).2 = (specRun v cfg env ops sp).2 ∧
       Rel (run v cfg env ops s).1 (specRun v cfg env ops sp).1
   | [], s, sp, h, _ => ⟨rfl, h⟩
@@ -270,24 +362,30 @@ theorem run_refines (v : Variant) (cfg : Config) (env : StyleEnv σ) (hm : v.cap
     have hend : op = .endCapture → sp.frames ≠ [] := by
       intro e hf
       subst e
-      simp [wellNested, hf] at hw
-    have hctx : isBufferCtx op = false := by
-      cases op <;> first | rfl | (simp [wellNested] at hw)
-    obtain ⟨h1, h2⟩ := step_refines v cfg env s sp op hm hv h hend hctx
-    have hw' : wellNested (specStep v cfg env sp op).1.frames.length rest = true := by
+      simp [wellBracketed, hf] at hw
+    have hexit : op = .exitBuffer → sp.ctx ≠ 0 := by
+      intro e hf
+      subst e
+      simp [wellBracketed, hf] at hw
+    obtain ⟨h1, h2⟩ := step_refines v cfg env s sp op hm hv h hend hexit
+    have hset : ∀ x : Spec σ, (Spec.settle cfg env x).frames = x.frames ∧ (Spec.settle cfg env x).ctx = x.ctx := by
+      intro x; unfold Spec.settle; split <;> exact ⟨rfl, rfl⟩
+    have hw' : wellBracketed (specStep v cfg env sp op).1.frames.length (specStep v cfg env sp op).1.ctx rest = true := by
       by_cases hc : isCapture op = true
       · cases op <;> simp [isCapture] at hc
-        · simpa [wellNested, specStep] using hw
+        · simpa [wellBracketed, specStep] using hw
         · cases hf : sp.frames with
           | nil => exact absurd hf (hend rfl)
           | cons f fr =>
-            simp only [wellNested, hf, List.length_cons, Bool.and_eq_true] at hw
-            simpa [specStep, hf] using hw.2
-        · simp [isBufferCtx] at hctx
-        · simp [isBufferCtx] at hctx
+            simp only [wellBracketed, hf, List.length_cons, Bool.and_eq_true] at hw
+            simpa [specStep, hf, hset] using hw.2
+        · simpa [wellBracketed, specStep] using hw
+        · simp only [wellBracketed, Bool.and_eq_true] at hw
+          simpa [specStep, hset] using hw.2
       · have hc' : isCapture op = false := by simpa using hc
-        rw [specStep_frames_length v cfg env sp op hc']
-        cases op <;> first | (simpa [wellNested] using hw) | (simp [isCapture] at hc')
+        obtain ⟨e1, e2⟩ := specStep_counts v cfg env sp op hc'
+        rw [e1, e2]
+        cases op <;> first | (simpa [wellBracketed] using hw) | (simp [isCapture] at hc')
     obtain ⟨r1, r2⟩ := run_refines v cfg env hm hv rest _ _ h2 hw'
     exact ⟨by simp only [run, specRun, h1, r1], by simpa only [run, specRun] using r2⟩
 
